@@ -14,25 +14,38 @@ def main():
     coq_dir = os.path.join(core.VERIF, "coq")
     os.makedirs(os.path.join(coq_dir, "Gen"), exist_ok=True)
     rc = 0
+    claimed_targets = []
     for m in sorted(pkgutil.iter_modules(props.__path__), key=lambda m: m.name):
-        mod = importlib.import_module(f"vh.props.{m.name}")
+        try:
+            mod = importlib.import_module(f"vh.props.{m.name}")
+        except Exception as exc:  # a work-in-progress module must not break setup
+            print(f"setup: cannot import vh.props.{m.name}: {exc}")
+            continue
         prop = getattr(mod, "PROP", None)
         if prop is None:
             continue
+        claimed = getattr(mod, "MANIFEST_ENTRY", None) is not None and prop.id in core.claimed_ids()
+        if claimed:
+            claimed_targets += list(prop.coq_targets)
         ctx = core.Ctx(prop.id, "quick", 0)
         try:
             for rel, text in prop.translate(ctx).items():
                 write_if_changed(os.path.join(coq_dir, rel), text)
         except TranslateError as exc:
             print(f"setup: translator for {prop.id} failed closed: {exc}")
-            rc = 1
+            if claimed:
+                rc = 1
         finally:
             ctx.cleanup()
     core.ensure_makefile(coq_dir)
-    ok, log = core.coq_build(coq_dir, ["all"], timeout=3000)
+    # claimed properties must build; everything else (work in progress) is built best-effort
+    ok, log = core.coq_build(coq_dir, claimed_targets, timeout=3000)
     print(log[-3000:])
     if not ok:
         rc = 1
+    ok2, log2 = core.coq_build(coq_dir, ["-k", "all"], timeout=3000)
+    if not ok2:
+        print("setup: some unclaimed (work in progress) files do not build:\n" + log2[-1500:])
     sys.exit(rc)
 
 
